@@ -109,11 +109,11 @@ def _run_model_one(drv, case):
     prog = su.programs(case)[0]
     if case.get("Nrep"):
         # repetition i of a study = the single run whose F_rand is the draw of seed i
-        rows = [su.decode_model(drv.call(su.model_request(case, rec, prog=prog, Frand=su.recorded_frand(i), old=True,
+        rows = [su.decode_model(drv.call(su.model_request(case, rec, prog=prog, Frand=su.recorded_frand(i), old=False,
                                                           row_stride=10 ** 9))) for i in range(int(case["Nrep"]))]
         return {"table": rows, "raise": next((m["raise"] for m in rows if m["raise"]), None)}
     fr = prog["Frand"] if prog.get("Frand") is not None else su.recorded_frand(0)
-    r = drv.call(su.model_request(case, rec, prog=prog, Frand=fr, old=True, traces=True, row_stride=10 ** 9))
+    r = drv.call(su.model_request(case, rec, prog=prog, Frand=fr, old=False, traces=True, row_stride=10 ** 9))
     m = su.decode_model(r)
     m["Frand"] = fr
     return m
@@ -559,7 +559,28 @@ def cases_nrep():
                  holds=None, cnTemp=None, Frand=None, frkind="real", Nrep=2, how="sequential", kind="Nrep=2")]
 
 
+def cases_mode_switch():
+    """ONE object whose OperatingConditions had a cnTemp when it was assigned and is switched to stochastic
+    nucleation IN PLACE (`S.opcond.cnTemp = None`), and the reverse: each run must nucleate by the rule of the
+    CURRENT operating conditions (first crossing of the hazard when cnTemp is None)"""
+    def nxt(base, cn):
+        return dict(t_tot=base["t_tot"], start=base["start"], stop=base["stop"], rate=base["rate"], holds=None,
+                    cnTemp=cn, Frand=0.5, edit="cnTemp-in-place")
+
+    p0 = dict(dim="0D", config="shelf", k_s0=100, t_tot=3000, start=20, stop=-50, rate=0.1, holds=None, Frand=0.5,
+              frkind="mid", kind="mode-switch-in-place")
+    h = 0.05
+    dt = su.dt_1d_default(h)
+    p1 = dict(dim="1D", config="shelf", height=h, k_s0=2000, t_tot=5000 * dt, start=20, stop=-50, rate=0.5, holds=None,
+              Frand=0.5, frkind="mid", kind="mode-switch-in-place")
+    return [dict(p0, cnTemp=-5.0, runs=[nxt(p0, None)]),
+            dict(p0, cnTemp=None, runs=[nxt(p0, -8.0), nxt(p0, None)]),
+            dict(p1, cnTemp=-5.0, runs=[nxt(p1, None)])]
+
+
 def cases(rng, tier):
+    for c in cases_mode_switch():
+        yield c
     yield su.jacket_case()
     for c in cases_nrep():
         yield c
